@@ -7,9 +7,10 @@ import OV.Model.C13Export
   * `SStmt`/`SProg`: the tiny target language `proto2python` prints for this fragment:
     `outs = alias.Op(args, attrs)` and operator sugar `out = a <sym> b`, a signature, a `return`, and the
     opset import table (`from onnxscript.onnx_opset import opset18` binds alias `opset18` to domain "").
-  * `exportStraight`: the exporter on the fragment, stated directly (no state: with `rename=False`, no
-    attribute parameters and no inlined constants the renamer is `cleanup`); `OV.Lemmas.C13Roundtrip` proves
-    that the string-level model `exportModel` prints exactly `renderProg (exportStraight …)`.
+  * `exportStraight`: the exporter on the fragment: every name is printed through the final table of the
+    unique-name mapper (`finalTable`: requests in the exporter's order — per node outputs then inputs, then the
+    signature, then the `return`); `OV.Lemmas.C13Roundtrip` proves that the string-level model `exportModel`
+    prints exactly `renderProg (exportStraight …)`.
   * `progToGraph`: how the converter reads such a program back: one node per statement, the callee resolved
     through the import table, operator sugar mapped by the converter's own `primop_map` (`convTable`),
     `None` ↦ absent input.  Sugar carries no attributes.
@@ -89,6 +90,8 @@ inductive SStmt where
   | binop (out sym a b : String)
 
 structure SProg where
+  /-- the argument of `@script(…)` -/
+  deco : String
   name : String
   /-- alias ↦ domain, from the generated import lines -/
   imports : List (String × String)
@@ -96,26 +99,44 @@ structure SProg where
   body : List SStmt
   rets : List String
 
-/-- `_translate_onnx_var` when nothing is remapped, renamed or in conflict: `""` ↦ `None`, else clean-up -/
-def pyName (v : String) : String := if v = "" then "None" else cleanup v
+/-- does `_translate_node` print the node as operator sugar? -/
+def sugarOf (o : Opts) (n : Node) : Option String := if o.useOps then opsTable.lookup n.op else none
 
-/-- the statement `_translate_node` prints for a plain node (`rename=False`, no inlined constants) -/
-def straightStmt (o : Opts) (opsets : List (String × Nat)) (n : Node) : SStmt :=
-  match (if o.useOps then opsTable.lookup n.op else none) with
-  | some sym => .binop (pyName (n.outs.getD 0 "")) sym (pyName (n.ins.getD 0 "")) (pyName (n.ins.getD 1 ""))
-  | none => .call (n.outs.map pyName) (opsetName n.domain ((opsets.lookup n.domain).getD 0)) (cleanup n.op)
-              (n.ins.map pyName) n.attrs
+/-- the names `_translate_node` requests from the renamer for a plain node, in order: the outputs (only the
+    first one for operator sugar), then the inputs -/
+def reqOfNode (o : Opts) (n : Node) : List String :=
+  match sugarOf o n with
+  | some _ => n.outs.getD 0 "" :: n.ins
+  | none => n.outs ++ n.ins
+
+/-- the order in which `_translate_graph` requests names: the body, then the signature, then the `return` -/
+def reqOrder (o : Opts) (m : ModelP) : List String :=
+  m.graph.nodes.flatMap (reqOfNode o) ++ m.graph.inputs ++ m.graph.outputs
+
+/-- the table of the unique-name mapper at the end of the export (`rename=False`) -/
+def finalTable (o : Opts) (m : ModelP) : List (String × String) := uniqRun [] (reqOrder o m)
+
+/-- the statement `_translate_node` prints for a plain node when names are printed by `f` -/
+def straightStmtF (f : String → String) (o : Opts) (opsets : List (String × Nat)) (n : Node) : SStmt :=
+  match sugarOf o n with
+  | some sym => .binop (f (n.outs.getD 0 "")) sym (f (n.ins.getD 0 "")) (f (n.ins.getD 1 ""))
+  | none => .call (n.outs.map f) (opsetName n.domain ((opsets.lookup n.domain).getD 0)) (cleanup n.op)
+              (n.ins.map f) n.attrs
 
 /-- `_translate_opset_import`: standard domains are imported as modules bound to domain "" -/
 def importOf (dv : String × Nat) : String × String :=
   (opsetName dv.1 dv.2, if dv.1 = "" ∨ dv.1 = "ai.onnx" then "" else dv.1)
 
+/-- the exporter on the fragment: every name is printed by the final table of the unique-name mapper
+    (a name keeps the Python name of its first request) -/
 def exportStraight (o : Opts) (m : ModelP) : SProg :=
-  { name := m.funName
+  let f := pyT (finalTable o m)
+  { deco := defaultOpsetArg o m.opsets
+    name := m.funName
     imports := m.opsets.map importOf
-    params := m.graph.inputs.map cleanup
-    body := m.graph.nodes.map (straightStmt o m.opsets)
-    rets := m.graph.outputs.map pyName }
+    params := m.graph.inputs.map f
+    body := m.graph.nodes.map (straightStmtF f o m.opsets)
+    rets := m.graph.outputs.map f }
 
 /-! ## printing (the canonical lines of `OV.C13.exportModel`) -/
 
@@ -130,7 +151,7 @@ def renderStmt (indent : Nat) : SStmt → String
   | .binop out sym a b => line indent ("op " ++ out ++ " = " ++ (" " ++ sym ++ " ").intercalate [a, b])
 
 def renderProg (p : SProg) : List String :=
-  ["sig " ++ p.name ++ "(" ++ comma p.params ++ "|)"] ++ p.body.map (renderStmt 1)
+  ["deco " ++ p.deco, "sig " ++ p.name ++ "(" ++ comma p.params ++ "|)"] ++ p.body.map (renderStmt 1)
     ++ [line 1 ("return " ++ comma p.rets)]
 
 /-! ## reading the program back (the converter on this fragment) -/
@@ -151,6 +172,9 @@ def stmtToNode (imports : List (String × String)) : SStmt → Node
 def progToGraph (p : SProg) : Graph :=
   .mk p.params p.rets [] 0 (p.body.map (stmtToNode p.imports))
 
+/-- the renaming the export applied: ONNX name ↦ Python name (final table) -/
+def tblF (T : List (String × String)) (x : String) : String := (T.lookup x).getD ""
+
 /-! ## the fragment -/
 
 /-- operator sugar is *symmetric* on a node: the converter maps the printed symbol back to the same operator,
@@ -160,7 +184,7 @@ def sugarSymmetric (n : Node) (sym : String) : Bool :=
 
 def attrPrintable : Attr → Bool
   | .plain => true
-  | .tensor _ _ _ => true
+  | .tensor _ _ _ _ => true
   | _ => false
 
 /-- a node of the fragment, under options `o` -/
@@ -171,8 +195,8 @@ def straightNode (o : Opts) (opsets : List (String × Nat)) (n : Node) : Bool :=
   && n.outs.all (· != "")
   && isPyIdentL n.op.toList && !(kwlistL.contains n.op.toList)
   && !(n.op == "Identity" && n.ins.length == 1 && n.outs.length == 1
-        && pyName (n.outs.getD 0 "") == pyName (n.ins.getD 0 ""))
-  && (match (if o.useOps then opsTable.lookup n.op else none) with
+        && (n.outs.getD 0 "" == n.ins.getD 0 "" || n.ins.getD 0 "" == ""))
+  && (match sugarOf o n with
       | some sym => sugarSymmetric n sym
       | none => true)
 
